@@ -5,7 +5,11 @@ Correspondence: real `status_code_conformance`, `content_type_conformance`, `res
 objects against documents loaded with `schemathesis.openapi.from_dict`, versus the Lean model
 (lean/SV/Model/C04.lean) on the same (document, response) pair; plus the pure helpers `expand_status_code`,
 `media_types.parse`, `_coerce_header_value` on their own.
-Replay: the Lean *specification* `deviates` (lean/SV/Spec/C04.lean, over the shared JSON-Schema reference semantics)
+Formats: the documents carry `format` keywords (headers and bodies, all three flavours); the truth of "string conforms
+to format" is an oracle table computed with the format predicates of the jsonschema library (third party, like `re`
+for patterns) and cross-checked against a hand-written pool; WHICH formats are enforced is the model's
+(`checkerFmt (headerChecker fl)`) and the specification's (`assertedFormats`) business.
+Replay: the Lean *specification* `deviatesF` (lean/SV/Spec/C04.lean, over the shared JSON-Schema reference semantics)
 judges the failures the real checks reported; small independent Python oracles cross-check the specification.
 """
 from __future__ import annotations
@@ -16,11 +20,12 @@ import json
 import re
 import warnings
 
+import jsonschema
 import requests
 import schemathesis
 from requests.utils import _parse_content_type_header
 from schemathesis.core import media_types
-from schemathesis.core.failures import FailureGroup
+from schemathesis.core.failures import Failure, FailureGroup
 from schemathesis.core.transport import Response
 from schemathesis.specs.openapi import checks as oas_checks
 from schemathesis.specs.openapi.utils import expand_status_code
@@ -40,6 +45,15 @@ KF_CT_ERROR = "C04:validate_response:malformed-content-type-raises-ValueError"
 KF_UNDECODABLE = "C04:validate_response:undecodable-body-raises-UnicodeDecodeError"
 KF_WO_PAIR = "C04:to_json_schema:several-writeOnly-properties-forbidden-only-together"
 KF_WO_UNTYPED = "C04:to_json_schema:writeOnly-ignored-without-type-object"
+KF_HDR_NULLABLE = "C04:response_headers_conformance:nullable-header-type-defaulted-beside-anyOf"
+KF_HDR_SCHEMA_REF = "C04:response_headers_conformance:$ref-header-schema-never-coerced"
+KF_HDR_TYPE_LIST = "C04:response_headers_conformance:type-list-header-never-coerced"
+KF_HDR_KEYWORD = "C04:response_headers_conformance:const-dropped-from-3.1-header-schema"
+KF_IS_VALID = "C04:is_response_valid:FailureGroup-escapes"
+KF_INT_KEYS = "C04:_get_response_definitions:integer-key-ignored"
+
+# the format predicates of the jsonschema library: the truth F of "string conforms to format" (third party)
+FORMAT_TRUTH = jsonschema.Draft202012Validator.FORMAT_CHECKER
 
 _REQ = requests.Request("GET", "http://127.0.0.1/x").prepare()
 
@@ -55,13 +69,24 @@ def real_response(resp):
                     content=resp["content"], request=_REQ, elapsed=0.1, verify=False)
 
 
-def _classes(fn):
+def _classes(fn, single_failure=False):
     try:
         fn()
         return []
     except FailureGroup as g:
         return sorted({type(e).__name__ for e in g.exceptions})
     except Exception as e:  # noqa: BLE001 - the class of an escaping exception is the observable
+        if single_failure and isinstance(e, Failure):
+            return [type(e).__name__]
+        return f"error:{type(e).__name__}"
+
+
+def _is_valid(op, response):
+    try:
+        return bool(op.is_response_valid(response))
+    except BaseException as e:  # noqa: BLE001 - FailureGroup is a BaseExceptionGroup
+        if isinstance(e, (KeyboardInterrupt, SystemExit)):
+            raise
         return f"error:{type(e).__name__}"
 
 
@@ -73,6 +98,9 @@ def run_impl(op, resp):
         out[name] = _classes(lambda: case.validate_response(real_response(resp), checks=[check]))
     case = op.Case()
     out["all"] = _classes(lambda: case.validate_response(real_response(resp), checks=[c for _, c in CHECKS]))
+    # the other two observation points: APIOperation.validate_response / is_response_valid
+    out["op_validate"] = _classes(lambda: op.validate_response(real_response(resp)), single_failure=True)
+    out["is_valid"] = _is_valid(op, real_response(resp))
     return out
 
 
@@ -81,7 +109,7 @@ def canon_model(m):
 
 
 def canon_impl(i):
-    return {k: ("error" if isinstance(v, str) else v) for k, v in i.items()}
+    return {k: ("error" if isinstance(v, str) else v) for k, v in i.items() if k not in ("op_validate", "is_valid")}
 
 
 def fails(v):
@@ -92,10 +120,64 @@ def nullable_name(raw):
     return "x-nullable" if G.is_v2(raw) else "nullable"
 
 
+def fmt_table(raw, inst):
+    """[[format, string, bool]] for every format named in the document and every string of the response"""
+    out = []
+    for f in sorted(G.formats_in(raw)):
+        if f not in FORMAT_TRUTH.checkers:
+            continue  # no predicate exists for the name: nothing can enforce it
+        for v in sorted(G.strings_in(inst)):
+            out.append([f, v, FORMAT_TRUTH.conforms(v, f)])
+    return out
+
+
 def request_for(raw, resp, variants):
     inst = [G.wire_resp(resp)["body"], G.header_strings(resp)]
     env = lean_env(raw, inst, oas="response", nullable=nullable_name(raw), root=raw)
+    env["fmt"] = fmt_table(raw, inst)
     return {"doc": G.wire_doc(raw), "resp": G.wire_resp(resp), "env": env, "variants": variants}
+
+
+def matched_headers(raw, resp):
+    """[(name, schema as written)] of the documented headers that the response carries, in the definition the
+    documented lookup order (explicit > range > default) selects — for telling the known header shapes apart"""
+    responses = {str(k): v for k, v in G.op_of(raw)["responses"].items()}
+    status = str(resp["status"])
+    d = responses.get(status)
+    if d is None:
+        for k, v in responses.items():
+            if py_key_matches(k, resp["status"]):
+                d = v
+                break
+    if d is None:
+        d = responses.get("default")
+    if d is None:
+        return []
+    d = G.resolve_local(raw, d)[0]
+    present = {k.lower() for k in resp["headers"]}
+    out = []
+    for name, hd in (d.get("headers") or {}).items():
+        if name.lower() in present:
+            out.append((name, G.header_schema_of(raw, G.resolve_local(raw, hd)[0])))
+    return out
+
+
+def header_shapes(raw, resp):
+    nn = nullable_name(raw)
+    v31 = not G.is_v2(raw) and str(raw.get("openapi", "")).startswith("3.1")
+    shapes = set()
+    for _, s in matched_headers(raw, resp):
+        if not isinstance(s, dict):
+            continue
+        if s.get(nn) is True:
+            shapes.add("nullable")
+        if "$ref" in s:
+            shapes.add("schema-ref")
+        if isinstance(s.get("type"), list):
+            shapes.add("type-list")
+        if v31 and "const" in s:
+            shapes.add("const")
+    return shapes
 
 
 def ct_class(resp):
@@ -123,6 +205,13 @@ def judge(chk, mechanism, raw, resp, m, impl, variants):
     chk.feature(f"content-type={ct_class(resp)}")
     chk.feature("body=" + ("malformed" if G.wire_resp(resp)["body"] == ["malformed"] else "json"))
     chk.feature(f"deviates={spec['deviates']}")
+    shapes = header_shapes(raw, resp)
+    for sh in sorted(shapes):
+        chk.feature(f"header-shape={sh}")
+    fmts = G.formats_in(raw)
+    if fmts:
+        chk.feature("format=" + ("draft4-known" if fmts & D4_FORMATS else "") + ("+newer" if fmts & (ASSERTED - D4_FORMATS) else "")
+                    + ("+annotation" if fmts - ASSERTED else ""))
     for name, _ in CHECKS:
         chk.feature(f"{name}:" + ("error" if ci[name] == "error" else ",".join(ci[name]) or "pass"))
     # ---- correspondence: model in the variants the tree exhibits vs implementation
@@ -159,9 +248,21 @@ def judge(chk, mechanism, raw, resp, m, impl, variants):
                           f"the documented media types (matched by {m['matched']} key)", rep)
             reported = True
     if ci["headers"] == "error" or fails(ci["headers"]) != spec["headers"]:
-        sig = attribute("headers", [(asf["lookup"] and m["matched"] == "range", KF_RANGE_DEFS),
-                                    (asf["hdrRef"] and not wf["no_required_ref_header"], KF_HDR_REF)],
-                        "C04:response_headers_conformance:verdict-differs-from-documentation")
+        flip = {site: fails(canon_model(m["flip"])[site]) == spec["headers"] for site in m["flip"]}
+        cands = [(asf["lookup"] and m["matched"] == "range" and flip["lookup"], KF_RANGE_DEFS),
+                 (asf["hdrRef"] and not wf["no_required_ref_header"] and flip["hdrRef"], KF_HDR_REF),
+                 (asf["hdrType"] and "nullable" in shapes and flip["hdrType"], KF_HDR_NULLABLE),
+                 (asf["hdrType"] and "schema-ref" in shapes and flip["hdrType"], KF_HDR_SCHEMA_REF),
+                 (asf["hdrType"] and "type-list" in shapes and flip["hdrType"], KF_HDR_TYPE_LIST),
+                 (asf["hdrKw"] and "const" in shapes and flip["hdrKw"], KF_HDR_KEYWORD)]
+        # several known sites at once: no single repair explains the verdict, the shapes say which sites are involved
+        cands += [(asf["lookup"] and m["matched"] == "range", KF_RANGE_DEFS),
+                  (asf["hdrRef"] and not wf["no_required_ref_header"], KF_HDR_REF),
+                  (asf["hdrType"] and "nullable" in shapes, KF_HDR_NULLABLE),
+                  (asf["hdrType"] and "schema-ref" in shapes, KF_HDR_SCHEMA_REF),
+                  (asf["hdrType"] and "type-list" in shapes, KF_HDR_TYPE_LIST),
+                  (asf["hdrKw"] and "const" in shapes, KF_HDR_KEYWORD)]
+        sig = attribute("headers", cands, "C04:response_headers_conformance:verdict-differs-from-documentation")
         chk.violation(sig, f"response_headers_conformance {'reports' if fails(ci['headers']) else 'passes'} a response whose "
                       f"documented headers {'conform' if not spec['headers'] else 'do not conform'} "
                       f"(matched by {m['matched']} key)", rep)
@@ -181,6 +282,20 @@ def judge(chk, mechanism, raw, resp, m, impl, variants):
                       f"{'conforms to' if not spec['body'] else 'violates'} the schema documented for its status code and "
                       f"media type (matched by {m['matched']} key)", rep)
         reported = True
+    # ---- the other observation points: APIOperation.validate_response is what response_schema_conformance runs, and
+    # is_response_valid is its boolean reading
+    if impl["op_validate"] != impl["body"]:
+        chk.violation("C04:APIOperation.validate_response:differs-from-response_schema_conformance",
+                      f"operation.validate_response gives {impl['op_validate']}, response_schema_conformance {impl['body']}", rep)
+    if ci["body"] != "error":
+        if isinstance(impl["is_valid"], str):
+            sig = KF_IS_VALID if impl["is_valid"] == "error:FailureGroup" and len(ci["body"]) >= 2 else \
+                "C04:is_response_valid:unexpected-exception"
+            chk.violation(sig, f"operation.is_response_valid raised {impl['is_valid'][6:]} instead of returning False "
+                          f"(validate_response reports {ci['body']})", rep)
+        elif impl["is_valid"] != (not fails(ci["body"])):
+            chk.violation("C04:is_response_valid:differs-from-validate_response",
+                          f"operation.is_response_valid = {impl['is_valid']} although validate_response reports {ci['body']}", rep)
     if (not reported and wf["media"] and wf["ct_plain"] and ci["all"] != "error" and wf["produces"]
             and fails(ci["all"]) != spec["deviates"]):
         chk.violation("C04:validate_response:overall-verdict-differs-from-documentation",
@@ -224,6 +339,17 @@ W_HDRREF = _doc3({"200": {"description": "d", "headers": {"X-Rate": {"$ref": "#/
                  {"headers": {"H0": {"required": True, "schema": {"type": "integer"}}}})
 W_CT = _doc3({"200": {"description": "d", "content": {"application/json": {"schema": OBJ}}}})
 
+W_HDR_CONST = _doc3({"200": {"description": "d", "headers": {"X-Rate": {"schema": {"const": "a"}}}}})
+W_HDR_CONST["openapi"] = "3.1.0"
+W_HDR_NULLABLE = _doc3({"200": {"description": "d", "headers": {"X-Rate": {"schema": {"type": "integer", "nullable": True}}}}})
+W_HDR_SCHEMA_REF = _doc3({"200": {"description": "d", "headers": {"X-Rate": {"schema": {"$ref": "#/components/schemas/A"}}}}},
+                         {"schemas": {"A": {"type": "integer"}}})
+W_HDR_TYPE_LIST = _doc3({"200": {"description": "d", "headers": {"X-Rate": {"schema": {"type": ["integer", "null"]}}}}})
+W_HDR_TYPE_LIST["openapi"] = "3.1.0"
+W_UUID = _doc3({"200": {"description": "d", "content": {"application/json": {"schema": {"type": "string", "format": "uuid"}}},
+                        "headers": {"X-Rate": {"schema": {"type": "string", "format": "uuid"}}}}})
+GOOD_UUID = "123e4567-e89b-12d3-a456-426614174000"
+
 WITNESSES = [
     (W_RANGE, {"status": 200, "headers": {"Content-Type": "text/plain"}, "content": b"{}"}),
     (W_RANGE, {"status": 200, "headers": {"Content-Type": "application/json", "X-Rate": "1"}, "content": b"{}"}),
@@ -231,6 +357,14 @@ WITNESSES = [
     (W_MEDIA, {"status": 200, "headers": {"Content-Type": "application/json"}, "content": b'"x"'}),
     (W_HDRREF, {"status": 200, "headers": {}, "content": b""}),
     (W_CT, {"status": 200, "headers": {"Content-Type": "garbage"}, "content": b'{"id": 1}'}),
+    (W_HDR_CONST, {"status": 200, "headers": {"X-Rate": "b"}, "content": b""}),
+    (W_HDR_NULLABLE, {"status": 200, "headers": {"X-Rate": "5"}, "content": b""}),
+    (W_HDR_SCHEMA_REF, {"status": 200, "headers": {"X-Rate": "5"}, "content": b""}),
+    (W_HDR_TYPE_LIST, {"status": 200, "headers": {"X-Rate": "5"}, "content": b""}),
+    # format_enforced_witness: violating / conforming uuid in header and body; the two-failure response of is_response_valid
+    (W_UUID, {"status": 200, "headers": {"Content-Type": "application/json", "X-Rate": "zzzzzzzz-zzzz-zzzz-zzzz-zzzzzzzzzzzz"}, "content": b'"nope"'}),
+    (W_UUID, {"status": 200, "headers": {"Content-Type": "application/json", "X-Rate": GOOD_UUID}, "content": json.dumps(GOOD_UUID).encode()}),
+    (W_CT, {"status": 200, "headers": {}, "content": b"{}"}),
 ]
 
 
@@ -245,7 +379,41 @@ def detect_variants(chk):
     v["media"] = "asFound" if fails(a["body"]) and not fails(b["body"]) else "repaired"
     v["hdrRef"] = "asFound" if not fails(impl(*WITNESSES[4])["headers"]) else "repaired"
     v["ctError"] = "asFound" if isinstance(impl(*WITNESSES[5])["body"], str) else "repaired"
+    v["hdrKw"] = "asFound" if not fails(impl(*WITNESSES[6])["headers"]) else "repaired"
+    v["hdrType"] = "asFound" if all(fails(impl(*WITNESSES[i])["headers"]) for i in (7, 8, 9)) else "repaired"
     return v
+
+
+# ---- format checkers: the registration tables of the model vs the library, the truth oracle vs the hand-written pool ----
+
+D4_FORMATS: set = set()
+ASSERTED: set = set()
+
+
+def format_tables(chk):
+    t = chk.driver().one("formats", {})
+    ASSERTED.update(t["asserted"])
+    D4_FORMATS.update(t["drafts"]["Draft4Validator"])
+    # the specification's list is written from the standard; so is the pool of the generator
+    if set(t["asserted"]) != set(G.FORMAT_POOL):
+        raise InfraError(f"assertedFormats (Lean) and FORMAT_POOL (generator) name different formats: "
+                         f"{sorted(set(t['asserted']) ^ set(G.FORMAT_POOL))}")
+    for name, formats in t["drafts"].items():
+        lib = set(getattr(jsonschema, name).FORMAT_CHECKER.checkers)
+        chk.case("format-checkers", key=name, nontrivial=True, sample={"draft": name, "model": sorted(formats), "library": sorted(lib)})
+        if lib != set(formats):
+            # third-party registration table / optional dependencies of this environment, not the code under test
+            raise InfraError(f"jsonschema.{name}.FORMAT_CHECKER knows {sorted(lib)}, the model says {sorted(formats)}: "
+                             "update Draft.formats (lean/SV/Model/C04.lean) or install the format dependencies")
+    for f, (ok, bad) in G.FORMAT_POOL.items():
+        for v, truth in [(x, True) for x in ok] + [(x, False) for x in bad]:
+            chk.case("format-truth", key=[f, v], nontrivial=True, sample={"format": f, "value": v, "conforms": truth})
+            if FORMAT_TRUTH.conforms(v, f) != truth:
+                raise InfraError(f"format oracle: jsonschema says {v!r} {'conforms to' if not truth else 'violates'} "
+                                 f"{f!r}, the hand-written pool says the opposite")
+    for f in G.FORMATS_ANNOTATION:
+        if f in FORMAT_TRUTH.checkers:
+            raise InfraError(f"annotation-only format {f!r} has a predicate in this jsonschema")
 
 
 # ---- the pure helpers ----------------------------------------------------------------------------------------------
@@ -358,6 +526,45 @@ def undecodable_body(chk, variants):
                       {"in": {"doc": W_CT, "resp": {**resp, "content": base64.b64encode(resp["content"]).decode()}}, "impl": impl})
 
 
+def int_keyed(raw):
+    """the same document with its explicit status keys as integers (what a plain YAML loader produces)"""
+    out = G.clone(raw)
+    op = G.op_of(out)
+    op["responses"] = {(int(k) if isinstance(k, str) and k.isdigit() and not (len(k) > 1 and k[0] == "0") else k): v
+                       for k, v in op["responses"].items()}
+    return out
+
+
+def integer_keys(chk, n):
+    """Implementation-level metamorphic replay (no model counterpart): the verdicts do not depend on whether an explicit
+    status key is the string "200" or the integer 200 (status_code_conformance and validate_response stringify the
+    keys themselves)."""
+    rng = chk.rng
+    for _ in range(n):
+        raw = G.gen_doc(rng)
+        if not any(str(k).isdigit() for k in G.op_of(raw)["responses"]):
+            continue
+        op_s, op_i = load_operation(raw), load_operation(int_keyed(raw))
+        for _ in range(3):
+            resp = G.gen_response(rng, raw)
+            a, b = run_impl(op_s, resp), run_impl(op_i, resp)
+            wire = {"doc": raw, "integer_keys": True, "resp": {**resp, "content": base64.b64encode(resp["content"]).decode()}}
+            differing = sorted(k for k in a if a[k] != b[k])
+            chk.case("integer-keys", key=wire, nontrivial=any(fails(v) for v in a.values()),
+                     sample={"in": wire, "string_keys": a, "integer_keys": b})
+            chk.feature("integer-keys:" + (",".join(differing) or "same"))
+            if not differing:
+                continue
+            rep = {"in": wire, "impl": b, "string_keys": a}
+            if set(differing) <= {"content_type", "headers", "all"}:
+                chk.violation(KF_INT_KEYS, f"with the status key as an integer {differing} give {[b[k] for k in differing]}, with "
+                              f"the same key as a string {[a[k] for k in differing]}", rep)
+            else:
+                chk.violation("C04:responses:verdict-depends-on-key-type",
+                              f"{differing} differ between integer and string status keys: {[b[k] for k in differing]} vs "
+                              f"{[a[k] for k in differing]}", rep)
+
+
 def write_only(chk, variants):
     """Implementation-level replay of the OpenAPI reading of `writeOnly` on the response side (the conversion to JSON
     Schema is a parameter of the model, so there is no correspondence here): exhaustive over 1-3 writeOnly properties,
@@ -406,12 +613,19 @@ def write_only(chk, variants):
 def run(chk):
     rng = chk.rng
     selfcheck(chk, chk.budget(150, 1500))
+    format_tables(chk)
     variants = detect_variants(chk)
     chk.variants.update(variants)
     chk.assumptions += [
         "jsonschema.validate(to_json_schema_recursive(S), v) = validF(oas=response) S v on the generated fragment "
-        "(nullable, at most one writeOnly property per typed object, local $ref, no pattern+length): cross-checked by "
-        "every correspondence case, not proved (converter.py is C01's proof subject)",
+        "(nullable, at most one writeOnly property per typed object, local $ref, format, no pattern+length): "
+        "cross-checked by every correspondence case, not proved (converter.py is C01's proof subject)",
+        "the truth of 'string s conforms to format f' is the predicate jsonschema registers for f (third party, the same "
+        "function in every draft's checker): an oracle table like `re` for patterns, cross-checked against a hand-written "
+        "pool of conforming / violating values per format; which formats are ENFORCED is modelled (Draft.formats, "
+        "headerChecker, bodyChecker) and specified (assertedFormats = the 19 defined formats of the 2020-12 vocabulary)",
+        "Draft.formats equals the registration table of the installed jsonschema for Draft 4/6/7/2019-09/2020-12 "
+        "(checked at the start of every run; a difference is an infrastructure error, not a violation)",
         "response keys are strings over [0-9xX] or 'default' (Python's int() additionally accepts '+', '_', blanks, "
         "non-ASCII digits); all text is ASCII; numeric header values follow [+-]?[0-9]+(.[0-9]+)?",
         "body bytes are UTF-8; json.loads is the trusted decoder of the body for model and specification",
@@ -433,23 +647,40 @@ def run(chk):
         "content_type_exact_repaired, headers_exact_repaired, body_exact_repaired, verdict_repaired: checks report ⇔ "
         "deviates and no exception escapes, for every validity oracle V, well-formed document and response",
         "verdict_asFound_partial: the same for the code as found under noRangeOnly ∧ singleMedia ∧ noRequiredRefHeader ∧ "
-        "ctNoCrash; verdict_asFound_full_false + asFound_range_only_miss / _body_miss, asFound_first_media_false_alarm / "
-        "_miss, asFound_ref_header_miss, asFound_malformed_content_type_crash (kernel-checked witnesses)",
+        "ctNoCrash ∧ plainHeaders; verdict_asFound_full_false + asFound_range_only_miss / _body_miss, "
+        "asFound_first_media_false_alarm / _miss, asFound_ref_header_miss, asFound_malformed_content_type_crash, "
+        "asFound_nullable_typed_header_false_alarm, asFound_ref_header_schema_false_alarm, "
+        "asFound_type_list_header_false_alarm, asFound_const_header_miss (kernel-checked witnesses)",
+        "header_value_asFound_partial: keyword filter + nullable→anyOf + type default + coercion by the top-level type = "
+        "the documented reading (some reading of the text as a value of a documented type validates) on plain header schemas",
+        "checker_formats_exact, header_checker_exact, body_checker_exact: the checker handed to both jsonschema.validate "
+        "calls enforces exactly the defined formats of the 2020-12 vocabulary, for every flavour and every truth F of the "
+        "format predicates; newest_checker_greatest: every older checker knows a subset; own_checker_gap: the validator "
+        "class's own checker (Draft 4 for 2.0/3.0) would leave 11 defined formats (uuid, date, time, duration, …) unenforced",
+        "verdict_formats_repaired / verdict_formats_asFound_partial: the verdict theorems with validity as a function of "
+        "the format predicate it is handed (every W, every F); format_enforced_witness: violating / conforming uuid in "
+        "header and body in all three flavours, and the miss with the validator class's own checker",
     ]
     chk.partial += [
         "JSON-Schema validation itself is a parameter V of the theorems (third-party jsonschema + converter.to_json_schema); "
         "its agreement with the reference semantics validF(oas=response) is sampled on every case, not proved",
-        "undecodable (non-UTF-8) bodies and the writeOnly conversion are outside the model; checked by implementation-level "
-        "replay only (mechanisms undecodable-body, writeOnly)",
+        "undecodable (non-UTF-8) bodies, the writeOnly conversion and integer status keys are outside the model; checked by "
+        "implementation-level replay only (mechanisms undecodable-body, writeOnly, integer-keys)",
+        "header schemas: only the top level of as_json_schema is modelled (keyword filter, nullable→anyOf, type default); "
+        "nested conversion and the pattern/length merge (update_quantifiers) stay inside V",
         "per-aspect body theorem needs a readable Content-Type; with a missing/unreadable one only the overall verdict is "
         "proved (the content-type aspect then reports)",
     ]
-    chk.sampled_only += ["resolution of `$ref`'d response / header definitions", "Swagger 2.0 `produces` inheritance",
-                         "run_checks' de-duplication of failures (compared as class sets)"]
+    chk.sampled_only += ["resolution of `$ref`'d response / header definitions and header schemas", "Swagger 2.0 `produces` inheritance",
+                         "run_checks' de-duplication of failures (compared as class sets)",
+                         "APIOperation.validate_response = response_schema_conformance and is_response_valid = its boolean "
+                         "reading (compared on every generated pair)",
+                         "independence of the verdicts from the type (str / int) of explicit status keys"]
     # 1. witnesses / corpus first
     run_pairs(chk, "witness", WITNESSES, variants)
     undecodable_body(chk, variants)
     write_only(chk, variants)
+    integer_keys(chk, chk.budget(60, 600))
     # 2. the pure helpers
     expand_corr(chk, chk.budget(400, 4000))
     parse_corr(chk, chk.budget(1500, 20000))
@@ -475,6 +706,10 @@ def replay(chk, data):
         raw = inp["doc"]
         resp = dict(inp["resp"])
         resp["content"] = base64.b64decode(resp["content"])
+        if inp.get("integer_keys"):
+            print("impl now, string keys :", run_impl(load_operation(raw), resp))
+            print("impl now, integer keys:", run_impl(load_operation(int_keyed(raw)), resp))
+            return 0
         variants = detect_variants(chk)
         print("variants in force:", variants)
         print("impl now:", run_impl(load_operation(raw), resp))
